@@ -137,7 +137,7 @@ def run(ctx):
         nrows = len(seen)
         ctx.count("abstract_rows", nrows)
         out = os.path.join(ctx.shm, "sign-trace")
-        shards = vf.NCPU
+        shards = es.WORKERS
         info = json.loads(vf.tool("hkv-sign", ["run", "-rows", rows_file, "-out", out, "-shards", str(shards), "-per", str(per),
                                               "-seed", str(ctx.seed), "-scratch", ctx.shm], timeout=timeout).strip().splitlines()[-1])
         mc.result()
